@@ -276,7 +276,9 @@ class ExcelCompiler:
 
         # populate the ranges and dependant graph
         for address, lineno in range_todos:
-            excel_compiler._make_cells(address)
+            if address.address not in excel_compiler.cell_map:
+                # (an unbounded range has built the range it resolves to)
+                excel_compiler._make_cells(address)
             add_line_numbers(address.address, lineno)
 
         excel_compiler._process_gen_graph()
